@@ -131,3 +131,75 @@ Example C01_schemes_nonvacuous :
   gen_compile_program GenSchemes.schemes 20 true CastFloat64 scheme_ex = Some (compile_program true CastFloat64 scheme_ex) /\
   List.length (compile_program true CastFloat64 scheme_ex) = 53%nat.
 Proof. vm_compute. repeat split; reflexivity. Qed.
+
+(* ---- lines to add to Props/C01.v (GenVMSteps: the dispatch loop of vm/vm.go regenerated) ---- *)
+(* Tie of the model VM (the machine compile_correct is about) to vm/vm.go BY REGENERATION: gen/GenVMSteps.v
+   holds, for every `case OpX:` of VM.Run, for the prologue, the loop head, the epilogue and the small
+   methods, the statements of the current source as terms of the DSL of BC/VMSteps.v; interp_case runs
+   a case on a model state, calling Sem/Prim.v for the helpers of vm/runtime.go and vm/helpers.go. *)
+Require X.BC.VMSteps X.gen.GenVMSteps X.Bridge.BrVMSteps.
+
+(* every statement of Run and of the small methods is one of the shapes the translator knows *)
+Theorem C01_vmsteps_recognised : VMSteps.vmsrc_recognised GenVMSteps.vm_src = true.
+Proof. exact BrVMSteps.vmsteps_recognised. Qed.
+Print Assumptions C01_vmsteps_recognised.
+
+(* the step function of the model VM IS the interpretation of the case of the current source: every
+   instruction, every code, every state that stands for a Go state (vm_rep_ok) outside the listed
+   places where model and Go text part (vm_in_scope, decidable) *)
+Theorem C01_model_vm_is_source_dispatch :
+  forall fe cfg env C s i l,
+    fetch C (pc s) = Some (i, l) -> VMSteps.vm_rep_ok cfg s = true -> VMSteps.vm_in_scope i s = true ->
+    VMSteps.case_agrees fe cfg env C GenVMSteps.vm_src i l s.
+Proof. exact BrVMSteps.vm_step_is_source_dispatch. Qed.
+Print Assumptions C01_model_vm_is_source_dispatch.
+
+(* 43 of the 52 instructions need no side condition at all *)
+Theorem C01_model_vm_is_source_dispatch_unconditional :
+  forall fe cfg env C s i l,
+    fetch C (pc s) = Some (i, l) -> BrVMSteps.unconditional i = true ->
+    VMSteps.case_agrees fe cfg env C GenVMSteps.vm_src i l s.
+Proof. exact BrVMSteps.vm_step_is_source_dispatch_unconditional. Qed.
+Print Assumptions C01_model_vm_is_source_dispatch_unconditional.
+
+(* the statement without vm_in_scope is false of the model: OpInc at the top of the int range *)
+Theorem C01_model_vm_is_source_dispatch_full_refuted : ~ BrVMSteps.vm_step_full_statement.
+Proof. exact BrVMSteps.vm_step_full_statement_refuted. Qed.
+Print Assumptions C01_model_vm_is_source_dispatch_full_refuted.
+
+(* one turn of the source loop (condition, fetch, switch, or the epilogue) is BC/VM.tick *)
+Theorem C01_model_tick_is_source_loop :
+  forall fe cfg env C s,
+    ((pc s < csize C)%nat -> fetch C (pc s) <> None) ->
+    VMSteps.vm_rep_ok cfg s = true -> VMSteps.vm_in_scope_at C s = true ->
+    option_map (VMSteps.tick_mem (r_mem (rs s))) (VMSteps.interp_tick fe cfg env C GenVMSteps.vm_src s)
+    = Some (tick fe cfg env C s).
+Proof. exact BrVMSteps.vm_tick_is_source_loop. Qed.
+Print Assumptions C01_model_tick_is_source_loop.
+
+(* Run (prologue on a machine in ANY state, loop, epilogue) read off the current source returns what
+   the model VM returns, for as long as the visited states satisfy the side conditions (run_guard) *)
+Theorem C01_model_run_is_source_run :
+  forall fe cfg env C d before,
+    VMSteps.run_guard fe cfg env C d init_state = true ->
+    option_map VMSteps.erase_stop_mem (VMSteps.interp_run fe cfg env C GenVMSteps.vm_src d before)
+    = option_map VMSteps.erase_stop_mem (run_code fe cfg env C d).
+Proof. exact BrVMSteps.vm_run_is_source_run. Qed.
+Print Assumptions C01_model_run_is_source_run.
+
+Example C01_vmsteps_nonvacuous :
+  VMSteps.run_guard BrVMSteps.w_fe BrVMSteps.w_cfg VNil BrVMSteps.run_ex_code 8 init_state = true /\
+  VMSteps.interp_run BrVMSteps.w_fe BrVMSteps.w_cfg VNil BrVMSteps.run_ex_code GenVMSteps.vm_src 8 BrVMSteps.run_ex_dirty
+  = run_code BrVMSteps.w_fe BrVMSteps.w_cfg VNil BrVMSteps.run_ex_code 8 /\
+  run_code BrVMSteps.w_fe BrVMSteps.w_cfg VNil BrVMSteps.run_ex_code 8
+  = Some (Done (VArr TIface [vint 2; vint 3]) (mkRS 5 [])).
+Proof. vm_compute. repeat split; reflexivity. Qed.
+
+(* the hypotheses of C01_model_vm_is_source_dispatch are met, e.g., by every state of the run above; here the
+   first instruction and, for a conditional one, OpInc on a counter below the top of the int range *)
+Example C01_vmsteps_dispatch_nonvacuous :
+  fetch BrVMSteps.run_ex_code 0 = Some (IPush (vint 1), noloc) /\
+  VMSteps.vm_rep_ok BrVMSteps.w_cfg init_state = true /\ VMSteps.vm_in_scope (IPush (vint 1)) init_state = true /\
+  VMSteps.vm_in_scope (IInc "i") (mkSt 0 [] [[("i", vint 41)]] rs0) = true /\
+  VMSteps.vm_in_scope (IInc "i") BrVMSteps.w_inc_state = false.
+Proof. vm_compute. repeat split; reflexivity. Qed.
